@@ -29,6 +29,9 @@ inductive CallOp where
   | loc (idx : Nat)                 -- F_CALL_FUNCTION_BY_ADDRESS idx
   | sup (inh : Nat) (idx : Nat)     -- F_CALL_INHERITED inh idx
   | fp (idx : Nat)                  -- F_FUNCTION_CONSTRUCTOR FP_LOCAL idx, then evaluate()
+  | stashSup (inh : Nat) (idx : Nat) -- a functional `(: ::f() :)` is made and STORED (in /c07/caller), not evaluated
+  | stashLoc (idx : Nat)            -- the same for `(: f() :)`
+  | runStash                        -- the stored functional of this object, if any, is evaluated by THIS frame
   deriving Repr, BEq, DecidableEq
 
 /-- compiler_function_t: one entry of `function_table` -/
@@ -297,10 +300,16 @@ inductive Outcome where
   | crash          -- C access out of range
   deriving Repr, BEq, DecidableEq
 
+/-- a stored functional: the program of the object that made it (its owner), the frame it was made in — a functional
+    carries the creator's function_index_offset / variable_index_offset (funp->f.functional.fio / vio) and program —
+    and the call its code makes -/
+abbrev Stash := Option (Nat × Frame × CallOp)
+
 structure Run where
   vars : List Int
   evs : List Ev            -- newest first
   out : Outcome
+  stash : Stash := none
 
 /-- name of runtime slot `index` of program p (function_name()) -/
 def functionName (w : World) (p index : Nat) : String :=
@@ -330,20 +339,53 @@ def numArgOf (P : Program) (fidx : Nat) : Nat :=
 def localArgs : List Int := [11, 12]
 def fpArgs : List Int := [21, 22, 23]
 
+/-- the frame a call made by code running in frame `fr` enters: F_CALL_FUNCTION_BY_ADDRESS / a function pointer
+    (slot `idx + fr.fio` of the OBJECT's program, range and NAME_UNDEFINED tests, setup_new_frame) or F_CALL_INHERITED
+    (setup_inherited_frame from `fr`'s offsets) -/
+def calleeOf (w : World) (obProg : Nat) (fr : Frame) (op : CallOp) (vars : List Int) (evs : List Ev) (stash : Stash) :
+    Except Run Frame :=
+  match op with
+  | .loc idx | .fp idx =>
+    let off := idx + fr.fio
+    match w.progs[obProg]? with
+    | none => .error { vars, evs, out := .crash, stash }
+    | some T =>
+      match T.flags[off]? with
+      | none =>
+        -- F_CALL_FUNCTION_BY_ADDRESS checks the range; the function pointer path does not
+        (match op with
+         | .loc _ => .error { vars, evs := Ev.err "illegal function index" :: evs, out := .error, stash }
+         | _ => .error { vars, evs, out := .crash, stash })
+      | some fl =>
+        if hasBit fl nameUndefined then
+          let nm := functionName w obProg off
+          (match op with
+           | .loc _ => .error { vars, evs := Ev.err s!"undefined function: {nm}" :: evs, out := .error, stash }
+           | _ => .error { vars, evs := Ev.err s!"*Undefined function: {nm}" :: evs, out := .error, stash })
+        else
+          match setupNewFrame w obProg off with
+          | some f => .ok f
+          | none => .error { vars, evs, out := .crash, stash }
+  | .sup inh idx =>
+    match setupInheritedFrame w fr inh idx with
+    | some f => .ok f
+    | none => .error { vars, evs, out := .crash, stash }
+  | _ => .error { vars, evs, out := .crash, stash }
+
 mutual
 /-- run the body in frame `fr` of an object whose program is `obProg`, called with the arguments `actual` -/
-def execBody (w : World) (obProg : Nat) : Nat → Frame → List Int → List Int → List Ev → Run
-  | 0, _, _, vars, evs => { vars, evs, out := .crash }
-  | fuel + 1, fr, actual, vars, evs =>
+def execBody (w : World) (obProg : Nat) : Nat → Frame → List Int → List Int → List Ev → Stash → Run
+  | 0, _, _, vars, evs, stash => { vars, evs, out := .crash, stash }
+  | fuel + 1, fr, actual, vars, evs, stash =>
     match w.progs[fr.prog]? with
-    | none => { vars, evs, out := .crash }
+    | none => { vars, evs, out := .crash, stash }
     | some P =>
       match P.ft[fr.fidx]? with
-      | none => { vars, evs, out := .crash }
+      | none => { vars, evs, out := .crash, stash }
       | some fe =>
         let vi := fr.vio + (P.nvt - P.nvd)
         match vars[vi]? with
-        | none => { vars, evs, out := .crash }
+        | none => { vars, evs, out := .crash, stash }
         | some old =>
           let evs := Ev.run P.name fe.nameStr old :: evs
           -- functions with parameters log them
@@ -352,49 +394,37 @@ def execBody (w : World) (obProg : Nat) : Nat → Frame → List Int → List In
           let vars := vars.set vi (codeOf P.name fe.nameStr)
           -- programs with a second own variable (`private int w;`, the same name at several levels) store there too
           let vars := if P.nvd ≥ 2 then vars.set (vi + 1) (codeOf P.name fe.nameStr + 5000) else vars
-          execOps w obProg fuel fr fe.ops vars evs
+          execOps w obProg fuel fr fe.ops vars evs stash
 
-def execOps (w : World) (obProg : Nat) : Nat → Frame → List CallOp → List Int → List Ev → Run
-  | _, _, [], vars, evs => { vars, evs, out := .ok }
-  | fuel, fr, op :: rest, vars, evs =>
-    let callee : Except Run Frame :=
+def execOps (w : World) (obProg : Nat) : Nat → Frame → List CallOp → List Int → List Ev → Stash → Run
+  | _, _, [], vars, evs, stash => { vars, evs, out := .ok, stash }
+  | fuel, fr, op :: rest, vars, evs, stash =>
+    -- which call is made, from which frame's offsets, with which arguments (none = no call: the functional is stored)
+    let what : Option (Frame × CallOp) × Stash :=
       match op with
-      | .loc idx | .fp idx =>
-        let off := idx + fr.fio
-        match w.progs[obProg]? with
-        | none => .error { vars, evs, out := .crash }
-        | some T =>
-          match T.flags[off]? with
-          | none =>
-            -- F_CALL_FUNCTION_BY_ADDRESS checks the range; the function pointer path does not
-            (match op with
-             | .loc _ => .error { vars, evs := Ev.err "illegal function index" :: evs, out := .error }
-             | _ => .error { vars, evs, out := .crash })
-          | some fl =>
-            if hasBit fl nameUndefined then
-              let nm := functionName w obProg off
-              (match op with
-               | .loc _ => .error { vars, evs := Ev.err s!"undefined function: {nm}" :: evs, out := .error }
-               | _ => .error { vars, evs := Ev.err s!"*Undefined function: {nm}" :: evs, out := .error })
-            else
-              match setupNewFrame w obProg off with
-              | some f => .ok f
-              | none => .error { vars, evs, out := .crash }
-      | .sup inh idx =>
-        match setupInheritedFrame w fr inh idx with
-        | some f => .ok f
-        | none => .error { vars, evs, out := .crash }
-    match callee with
-    | .error r => r
-    | .ok f =>
-      match fuel with
-      | 0 => { vars, evs, out := .crash }
-      | fuel' + 1 =>
-        let a := match op with | .fp _ => fpArgs | _ => localArgs
-        let r := execBody w obProg fuel' f a vars evs
-        match r.out with
-        | .ok => execOps w obProg fuel' fr rest r.vars r.evs
-        | _ => r
+      | .stashSup inh idx => (none, some (obProg, fr, .sup inh idx))
+      | .stashLoc idx => (none, some (obProg, fr, .loc idx))
+      | .runStash =>
+        -- /c07/caller hands the stored functional back to its owner only; call_function_pointer FP_FUNCTIONAL restores the
+        -- CREATOR's offsets and program, whatever the offsets of the frame that evaluates it
+        (match stash with
+         | some (owner, cfr, cop) => if owner == obProg then (some (cfr, cop), none) else (none, stash)   -- fetched once
+         | none => (none, stash))
+      | op => (some (fr, op), stash)
+    match what with
+    | (none, stash) => execOps w obProg fuel fr rest vars evs stash
+    | (some (cfr, cop), stash) =>
+      match calleeOf w obProg cfr cop vars evs stash with
+      | .error r => r
+      | .ok f =>
+        match fuel with
+        | 0 => { vars, evs, out := .crash, stash }
+        | fuel' + 1 =>
+          let a := match cop with | .fp _ => fpArgs | _ => localArgs
+          let r := execBody w obProg fuel' f a vars evs stash
+          match r.out with
+          | .ok => execOps w obProg fuel' fr rest r.vars r.evs r.stash
+          | _ => r
 end
 
 /-- fuel for bodies: the generated call graphs are acyclic and small -/
@@ -442,6 +472,7 @@ structure St where
   objs : List Obj := []
   labels : List (String × Nat) := []     -- label -> program of the object
   out : List Ev := []                    -- newest first
+  stash : Stash := none                  -- the functional stored in /c07/caller
 
 def St.obj? (s : St) (p : Nat) : Option Obj := s.objs.find? (·.prog == p)
 
@@ -481,9 +512,9 @@ def callFn (w : World) (s : St) (p ptr : Nat) (key : NameKey) (args : List Int :
     | .crash => (.crash, s)
     | .fail => (.fail, s)
     | .call q k fio vio =>
-      let run := execBody w p bodyFuel { prog := q, fidx := k, fio := fio, vio := vio } args ob.vars s.out
+      let run := execBody w p bodyFuel { prog := q, fidx := k, fio := fio, vio := vio } args ob.vars s.out s.stash
       let tag := ((w.progs[q]?.bind (fun Q => (Q.ft[k]?).map (fun e => s!"\"{Q.name}:{e.nameStr}\""))).getD "?")
-      let s : St := { (s.setVars p run.vars) with out := run.evs }
+      let s : St := { (s.setVars p run.vars) with out := run.evs, stash := run.stash }
       match run.out with
       | .crash => (.crash, s)
       | .error => (.error, s)
@@ -626,8 +657,8 @@ def doHeartBeat (w : World) (s : St) (oid fn : String) : St :=
             else match setupNewFrame w ob.prog idx with
               | none => { s with out := Ev.line "crash model-out-of-range" :: evs }
               | some fr =>
-                let run := execBody w ob.prog bodyFuel fr [] ob.vars evs
-                let s := s.setVars ob.prog run.vars
+                let run := execBody w ob.prog bodyFuel fr [] ob.vars evs s.stash
+                let s := { s.setVars ob.prog run.vars with stash := run.stash }
                 match run.out with
                 | .crash => { s with out := Ev.line "crash model-out-of-range" :: run.evs }
                 | _ => { s with out := Ev.vars oid run.vars :: Ev.ret "ticked" :: run.evs }
